@@ -227,7 +227,7 @@ class Impl:
         self.fsmod = fsmod
         self.error = aiocoap.error
         self.log = logging.getLogger("c19-fileserver")
-        self.log.setLevel(logging.CRITICAL)
+        __import__("common").quiet(self.log)
         mimetypes.init()
         self.codes = {m: getattr(self.aiocoap.Code, m.upper() if m != "iPATCH" else "iPATCH")
                       for m in METHODS}
